@@ -142,6 +142,11 @@ func init() {
 					}
 				})
 			})
+			for mi, cfg := range manyImportsCfgs() {
+				mi, cfg := mi, cfg
+				id := fmt.Sprintf("many-imports/%d", mi)
+				w.Case(id, func(c *C) { pair(c, id, []File{{"c.yaml", cfg.YAML()}}, false, P(true)) })
+			}
 			for _, r := range c17rejected() {
 				r := r
 				w.Case("rejected/"+r.id, func(c *C) {
